@@ -432,11 +432,15 @@ class JunctionComparator:
         extra_left = read_intron_read_profile[0] == 0
         extra_right = read_intron_read_profile[-1] == 0
 
+        # read introns [0, left_limit) may be reported as lying to the left, [right_limit, n) as lying to the right
+        left_limit = len(read_intron_read_profile)
+        right_limit = 0
         if all(x == 0 for x in read_intron_read_profile):
-            if read_introns[0][0] < isoform_start:
-                extra_right = False
-            else:
-                extra_left = False
+            # no intron of the read is compared with the isoform: each one lies on the side on which it begins
+            left_limit = len([intron for intron in read_introns if intron[0] < isoform_start])
+            right_limit = left_limit
+            extra_left = left_limit > 0
+            extra_right = right_limit < len(read_intron_read_profile)
 
         if extra_left:
             read_pos = 0
@@ -445,7 +449,7 @@ class JunctionComparator:
                                                SupplementaryMatchConstants.extra_left_region, (read_pos, read_pos)))
                 read_pos += 1
 
-            while read_pos < len(read_intron_read_profile) and read_intron_read_profile[read_pos] == 0:
+            while read_pos < left_limit and read_intron_read_profile[read_pos] == 0:
                 match_events.append(MatchEvent(MatchEventSubtype.extra_intron_flanking_left,
                                                SupplementaryMatchConstants.extra_left_region, (read_pos, read_pos)))
                 read_pos += 1
@@ -457,7 +461,7 @@ class JunctionComparator:
                                                SupplementaryMatchConstants.extra_right_region, (read_pos, read_pos)))
                 read_pos -= 1
 
-            while read_pos >= 0 and read_intron_read_profile[read_pos] == 0:
+            while read_pos >= right_limit and read_intron_read_profile[read_pos] == 0:
                 match_events.append(MatchEvent(MatchEventSubtype.extra_intron_flanking_right,
                                                SupplementaryMatchConstants.extra_right_region, (read_pos, read_pos)))
                 read_pos -= 1
